@@ -1,4 +1,5 @@
 import UtilModel.Core.LTSHash
+import UtilModel.Core.LTSComplete
 import UtilModel.CCall.Props
 /-!
 # CCall — end-to-end transfer
@@ -13,5 +14,38 @@ theorem C17_accepted (cap fuel : Nat) (h : List CCall.Obs)
     (ha : CCall.model.accepts cap fuel h = true) : CCall.monC17.accepts h = true :=
   accepted_satisfies CCall.model (fun h => CCall.monC17.accepts h = true)
     CCall.C17_obs cap fuel h ha
+
+end UtilModel
+
+/-! ## completeness of the candidate lists — a REJECT is about the model -/
+namespace UtilModel
+
+/-- every enabled internal event of the CallConcurrently model is in its candidate list -/
+theorem CCall.cands_complete (s s' : CCall.St) (e : CCall.Ev) (hs : CCall.step s e = some s')
+    (ho : e.obs = none) : e ∈ CCall.model.cands s := by
+  show e ∈ CCall.cands s
+  unfold CCall.cands
+  cases e <;> simp [CCall.Ev.obs] at ho
+  case decCS i =>
+    simp only [CCall.step] at hs
+    split at hs <;> try simp at hs
+    rename_i h
+    simp only [List.mem_append, List.mem_map, List.mem_range]
+    exact Or.inr ⟨i, lt_of_getElem? h, rfl⟩
+  all_goals simp
+
+theorem CCall.Ev.obs_ev (e : CCall.Ev) (o : CCall.Obs) (h : e.obs = some o) : o.ev = e := by
+  cases e <;> simp [CCall.Ev.obs] at h <;> subst h <;> rfl
+
+theorem complete_ccall : CCall.model.Complete :=
+  ⟨fun s e s' hs ho => CCall.cands_complete s s' e hs ho,
+   fun _ e _ o _ ho => by simp [CCall.model, CCall.Ev.obs_ev e o ho]⟩
+
+/-- **A REJECT of the CallConcurrently correspondence is about the model** (list-indexed checker). -/
+theorem reject_sound_ccall (cap fuel : Nat) (h : List CCall.Obs) (i : Nat)
+    (hfail : (CCall.model.accRun cap fuel [CCall.model.init] h 0 false 1).failedAt = some i)
+    (htr : (CCall.model.accRun cap fuel [CCall.model.init] h 0 false 1).truncated = false) :
+    ¬ ∃ es s, CCall.model.run CCall.model.init es = some s ∧ es.filterMap CCall.model.obs = h :=
+  reject_sound CCall.model complete_ccall cap fuel h i hfail htr
 
 end UtilModel
